@@ -49,7 +49,17 @@ func distanceMeters(context *api.Context, a b6.Geometry, b b6.Geometry) (float64
 
 // Return the distance in meters between the given path, and the project of the give point onto it.
 func distanceToPointMeters(context *api.Context, path b6.Geometry, point b6.Geometry) (float64, error) {
-	polyline := *path.Polyline()
+	p, err := polylineOf("distance-to-point-meters", path)
+	if err != nil {
+		return 0.0, err
+	}
+	if err := requireGeometry("distance-to-point-meters", point); err != nil {
+		return 0.0, err
+	}
+	polyline := *p
+	if len(polyline) < 2 {
+		return b6.AngleToMeters(polyline[0].Distance(point.Point())), nil
+	}
 	projection, vertex := polyline.Project(point.Point())
 	distance := polyline[vertex-1].Distance(projection)
 	if vertex > 1 {
